@@ -36,6 +36,8 @@ func c14(c *core.Check) {
 	c14Metadata(c)
 	c14Fonts(c)
 	c14Counts(c)
+	c14Bookmarks(c)
+	c14Radial(c)
 	r6 := c.Rule("R6", "no call passes two same-typed arguments under each other's parameter names (swapped arguments): every pair of arguments named after the callee's parameters is aligned with them", 50)
 	argNameRule(c, r6, "html/document", map[string]bool{"document.go": true, "draw.go": true}, 45)
 	argNameRule(c, r6, "images", nil, 20)
@@ -731,4 +733,106 @@ var c14CountNotes = map[string]string{
 	"images.processColorStops | (position.V() - base.V()) / pr.Float(i - previousI)":                        "i == previousI only happens for a single colour stop; the increment is then read by a loop over an empty range",
 	"svg.(*pathParser).addArc | deltaEta / float64(segs)":                                                   "segs = int(|deltaEta| / maxDx) + 1 >= 1: a truncated non-negative quotient plus one (the prover does not follow math.Abs through the float-to-int conversion)",
 	"text/draw.drawEmojiPango | utils.Fl(data.Width) / utils.Fl(data.Height)":                               "the height of an embedded bitmap glyph comes from the font file, outside the document; not decided",
+}
+
+// c14Bookmarks: the outline is one tree over the whole document, not one per page.
+func c14Bookmarks(c *core.Check) {
+	p := c.Prog
+	r := c.Rule("R8", "the bookmark outline is built across pages: in makeBookmarkTree every variable carried by the loop over a page's bookmarks (the last node per depth, the previous level, the skipped levels) enters that loop with the value the loop over the pages carries — it is not re-initialised per page, which would attach the first bookmark of every page to the root whatever its level", 2)
+	fn := p.Method("html/document", "Document", "makeBookmarkTree")
+	if fn == nil {
+		r.Anchor("html/document.Document.makeBookmarkTree")
+		return
+	}
+	loops := core.Loops(fn)
+	encl := func(l *core.Loop) *core.Loop { // immediately enclosing loop
+		var best *core.Loop
+		for _, o := range loops {
+			if o == l || !o.Blocks[l.Header] {
+				continue
+			}
+			if best == nil || best.Blocks[o.Header] {
+				best = o
+			}
+		}
+		return best
+	}
+	n := 0
+	for _, b := range loops {
+		a := encl(b)
+		if a == nil || encl(a) != nil {
+			continue // b is not a direct child of an outermost loop
+		}
+		for _, in := range b.Header.Instrs {
+			phi, ok := in.(*ssa.Phi)
+			if !ok {
+				break
+			}
+			if phi.Comment == "rangeindex" {
+				continue
+			}
+			n++
+			key := "html/document.makeBookmarkTree | " + phi.Comment + " enters the per-page loop"
+			okAll := true
+			for i, pred := range b.Header.Preds {
+				if b.Blocks[pred] {
+					continue
+				}
+				e := phi.Edges[i]
+				outer, isPhi := e.(*ssa.Phi)
+				if !isPhi || outer.Block() != a.Header {
+					okAll = false
+				}
+			}
+			r.Cond(okAll, key, p.Pos(phi.Pos()), "with the value carried by the loop over the pages", "is re-initialised for every page: the outline state of the previous pages is forgotten")
+		}
+	}
+	if n == 0 {
+		r.Anchor("makeBookmarkTree: loop over the bookmarks of a page inside the loop over the pages")
+	}
+}
+
+// c14Radial: the radii of a radial gradient are made non-degenerate before anything is divided by them.
+func c14Radial(c *core.Check) {
+	p := c.Prog
+	r := c.Rule("R9", "degenerate radial gradients (CSS Images 3 §3.2.3): in RadialGradient.Layout every floating point division by a radius uses the radii returned by handleDegenerateRadial, which replaces a zero radius whatever the way the size was given (explicit lengths, keywords, circle or ellipse)", 1)
+	fn := p.Method("images", "RadialGradient", "Layout")
+	if fn == nil {
+		r.Anchor("images.RadialGradient.Layout")
+		return
+	}
+	fromGuard := func(v ssa.Value) bool {
+		call, ok := v.(*ssa.Call)
+		return ok && call.Call.StaticCallee() != nil && call.Call.StaticCallee().Name() == "handleDegenerateRadial"
+	}
+	fromResolve := func(v ssa.Value) bool {
+		call, ok := v.(*ssa.Call)
+		return ok && call.Call.StaticCallee() != nil && call.Call.StaticCallee().Name() == "resolveSize"
+	}
+	n := 0
+	core.Instrs(fn, func(in ssa.Instruction) {
+		b, ok := in.(*ssa.BinOp)
+		if !ok || b.Op != token.QUO {
+			return
+		}
+		if bt, isB := b.X.Type().Underlying().(*types.Basic); !isB || bt.Info()&types.IsFloat == 0 {
+			return
+		}
+		// divisors that are radii: derived from the size computation
+		isSize := core.DerivesFrom(b.Y, fromGuard) || core.DerivesFrom(b.Y, fromResolve)
+		if !isSize {
+			return
+		}
+		n++
+		key := "images.RadialGradient.Layout | " + opText(p, fn, b)
+		// the radius must come out of handleDegenerateRadial, not straight out of resolveSize
+		direct := core.DerivesFrom(b.Y, func(v ssa.Value) bool {
+			ex, ok := v.(*ssa.Extract)
+			return ok && fromResolve(ex.Tuple)
+		})
+		r.Cond(core.DerivesFrom(b.Y, fromGuard) && !direct, key, p.Pos(b.Pos()), "the divisor is a radius returned by handleDegenerateRadial", "the divisor is a radius taken from resolveSize without passing through handleDegenerateRadial: a zero radius (a zero explicit size, a centre on the box edge) divides")
+	})
+	if n == 0 {
+		r.Anchor("RadialGradient.Layout: division by a radius")
+	}
 }
